@@ -1008,6 +1008,14 @@ func judgeText(res *vkit.Result, o *decOut, ctx string, info map[string]any) map
 	return info
 }
 
+// showWant: the documented value in messages (nil = the zero value).
+func showWant(v any) string {
+	if v == nil {
+		return "the zero value"
+	}
+	return canonJSON(v)
+}
+
 // heldNote: message suffix naming what a re-used destination held.
 func heldNote(held bool, prior any) string {
 	if !held {
@@ -1032,7 +1040,7 @@ func judgeValue(res *vkit.Result, ctx, typ, kname string, e expect, o *decOut, d
 		if !matches(got, e) {
 			if kept {
 				res.Fail("C12:reused-destination-keeps-old-value:"+kname, "%s decoded into a %s that held %s leaves %s, documented value %s: what the document says is not taken over",
-					clip(doc), typ, canonJSON(o.priorS), canonJSON(got), canonJSON(e.want))
+					clip(doc), typ, canonJSON(o.priorS), canonJSON(got), showWant(e.want))
 			} else {
 				res.Fail("C12:decode-wrong-value:"+kname+":"+e.form, "%s decoded into %s gives %s, documented value %s%s", clip(doc), typ, canonJSON(got), canonJSON(e.want), heldNote(held, o.priorS))
 			}
@@ -1142,7 +1150,7 @@ func judgeObject(res *vkit.Result, ctx string, got *snap, oe *objExpect, path st
 				}
 				if kept {
 					res.Fail("C12:reused-destination-keeps-old-value:"+kn, "%s = %s decoded into a destination whose field held %s: the field is still %s, documented value %s - what the document says is not taken over",
-						where, rawOf(), showPrior, show, canonJSON(e.want))
+						where, rawOf(), showPrior, show, showWant(e.want))
 					continue
 				}
 				res.Fail("C12:decode-wrong-value:"+kn+":"+e.form, "%s = %s: decoded field is %s, documented value %s%s", where, rawOf(), show, canonJSON(e.want), note)
@@ -1225,9 +1233,15 @@ var prop = vkit.Prop[Case]{
 		"the scalar forms include syntactically well-formed but semantically unknown / out-of-range values next to valid and malformed ones: language tags composed subtag by subtag (each position known / unknown to the registry / malformed; " +
 		"a well-formed tag with an unknown subtag must decode to the undefined locale resp. be left out of a list, as documented on Locale.UnmarshalJSON / ParseLocales), RFC 3339 shaped times with a component out of range, spellings around the strings true / false; " +
 		"(c) AES sealing: plaintext bytes (empty, NUL, invalid UTF-8), a PAIR of different keys of arbitrary lengths 0..80 bytes (independent, one bit apart, sharing a prefix of 16/24/32/any bytes, one extending the other), string and byte API, tampering: " +
-		"whenever sealing under a key succeeds the sealed string opens under it and (plaintext >= 8 bytes) does not open to the plaintext under the other key, in both directions; keys the library refuses make the claim vacuous (counted: aes:vacuous-*); reference comparison and tampering for 16/24/32-byte keys. " +
-		"non-trivial = (a) the custom map collides with >=1 registered name, (b) the document uses a non-canonical tolerant form, (c) plaintext length is not a multiple of the block; " +
-		"distinct = (a) type + colliding set/unset names + set registered names, (b) type + multiset of member forms, (c) API, key length, relation of the two keys (common prefix class), plaintext length, tampering. " +
+		"whenever sealing under a key succeeds the sealed string opens under it and (plaintext >= 8 bytes) does not open to the plaintext under the other key, in both directions; keys the library refuses make the claim vacuous (counted: aes:vacuous-*); reference comparison and tampering for 16/24/32-byte keys; " +
+		"(d) SEQUENCES of 2-6 steps in one process, judged only after the last step: encode a generated value of mixed claims types through the exported MarshalJSON method of the type (3/4) or json.Marshal, KEEPING the returned slice " +
+		"(after all steps it must equal the copy taken at return time and be the encoding (a) prescribes for ITS value, and decode back); decode a generated document into a fresh destination, into a destination an earlier step decoded into, " +
+		"or into a destination pre-populated with a generated value (claims types and the stand-alone decoder variables; later documents prefer member names the destination has met): every member the document contains is decoded exactly as " +
+		"into a fresh destination (replaced, never mixed with the old content), members it does not contain and custom claims of earlier documents keep what the destination held (encoding/json's documented behaviour) or are zero, " +
+		"and a decoded value still holds the same when the sequence is over; TestFormsEnumerated also decodes every enumerated single-member document twice into a destination in which every claim is set, and every scalar form into a variable that holds a value; " +
+		"TestConcurrent (race binary) runs such step lists on 2-6 goroutines at once. " +
+		"non-trivial = (a) the custom map collides with >=1 registered name, (b) the document uses a non-canonical tolerant form, (c) plaintext length is not a multiple of the block, (d) >=2 kept encoded documents or a decode into a re-used / pre-populated destination; " +
+		"distinct = (a) type + colliding set/unset names + set registered names, (b) type + multiset of member forms, (c) API, key length, relation of the two keys (common prefix class), plaintext length, tampering, (d) the list of (operation, type, destination kind). " +
 		"excluded: custom values that are not JSON-safe (invalid UTF-8, NaN), scope entries with spaces; grey: duplicate member names, case variants of registered names, fractional or >2^53 timestamps, language tags that canonicalisation rewrites",
 	Gen:   genCase,
 	Run:   run,
